@@ -16,6 +16,7 @@ import (
 	"fmt"
 	"os"
 	"path/filepath"
+	"runtime/debug"
 	"sort"
 	"sync"
 	"testing"
@@ -289,7 +290,7 @@ func RunWith[C any](t *testing.T, col *Collector, gen func(t *rapid.T) C, check 
 		if err := json.Unmarshal(data, &c); err != nil {
 			t.Fatalf("decode replay: %v", err)
 		}
-		r := check(c)
+		r := safeCheck(col.prop, check, c)
 		v := col.Record(data, r)
 		col.Flush("replay", true)
 		if v != nil {
@@ -311,7 +312,7 @@ func RunWith[C any](t *testing.T, col *Collector, gen func(t *rapid.T) C, check 
 		if err != nil {
 			rt.Fatalf("case is not serialisable: %v", err)
 		}
-		r := check(c)
+		r := safeCheck(col.prop, check, c)
 		if v := col.Record(data, r); v != nil {
 			rt.Fatalf("violation [%s]: %s\ncase: %s", v.Sig, v.Msg, truncate(string(data), 4000))
 		}
@@ -324,4 +325,15 @@ func truncate(s string, n int) string {
 		return s
 	}
 	return s[:n] + "…"
+}
+
+// safeCheck turns a panic of the code under test (or of the oracle) into a violation so that
+// rapid can shrink it and a replay file is written.
+func safeCheck[C any](prop string, check func(c C) Result, c C) (r Result) {
+	defer func() {
+		if p := recover(); p != nil {
+			r = Result{NonTrivial: true, Violation: Viol(prop+"/panic", "panic: %v\n%s", p, debug.Stack())}
+		}
+	}()
+	return check(c)
 }
